@@ -1,4 +1,5 @@
 """C16 C17 C18 C19 C20."""
+import json
 import os
 
 from runner import *  # noqa
@@ -69,4 +70,172 @@ class C18(Check):
                 Recording("rec_capi", ["--part", "dynamic"], "C dynamic index", trace=("DynTrace.tla", "DynTrace.cfg"), timeout=900)]
 
 
-CHECKS = [C18, C20]
+class C19(Check):
+    id = "C19"
+    title = "index objects are independent values: copies/moves answer like the original"
+    trace_module = "LifeTrace.tla"
+    trace_cfg = "LifeTrace.cfg"
+    builds = [{"name": "rec_lifecycle_asan", "sources": ["rec_lifecycle.cpp"], "compiler": "clang++",
+               "extra_flags": ["-g", "-fsanitize=address", "-fno-omit-frame-pointer"]}]
+    assumptions = ["'never refers to storage owned by the source' is observed through AddressSanitizer: objects live on the heap, the source is really destroyed, a read of freed storage aborts the recording (Crash line, rejected by the trace specification)",
+                   "answers are compared as classes of full answer vectors on a fixed probe set (searches for ~90 keys; find/iteration/range; contains/box ranges)",
+                   "moved-from objects are only destroyed or assigned to"]
+    rule = ("model: every history of <= 5 operations over 3 object slots (Construct, CopyConstruct, CopyAssign, MoveConstruct, MoveAssign, Destroy, Mutate, Query); "
+            "the member-wise copy variant must violate NoForeignStorage (sensitivity); traces: every TLC history of 4 operations (every 6th in quick) executed on "
+            "CompressedPGMIndex and on one of PGMIndex / Bucketing / EliasFano / Multidimensional / Dynamic in rotation, plus seeded histories of 6..20 operations")
+
+    def life_cfg(self, work, name, mode, maxops, invariants, props=(), constraint=None):
+        p = os.path.join(work, name + ".cfg")
+        with open(p, "w") as f:
+            f.write("CONSTANTS Obj = {1,2,3}\n Vals = {1,2}\n CopyMode = \"%s\"\n Mutable = TRUE\n MaxOps = %d\nSPECIFICATION Spec\n" % (mode, maxops))
+            if invariants:
+                f.write("INVARIANTS %s\n" % " ".join(invariants))
+            for pr in props:
+                f.write("PROPERTY %s\n" % pr)
+            if constraint:
+                f.write("CONSTRAINT %s\n" % constraint)
+            else:
+                f.write("VIEW View\n")
+            f.write("CHECK_DEADLOCK FALSE\n")
+        return p
+
+    def pre_record(self, tier, seed, bins, work):
+        import tlcgen
+        depth = 5 if tier == "quick" else 6
+        self._late = [
+            ModelRun("Lifecycle.tla", self.life_cfg(work, "Life", "retarget", depth, ["NoForeignStorage", "QueryNeverDangling"], ["Independent"]),
+                     "all histories <= %d operations, 3 slots, re-targeting copies" % depth, workers=4, timeout=2400, constants={"Obj": 3, "MaxOps": depth}),
+            ModelRun("Lifecycle.tla", self.life_cfg(work, "LifeDefect", "memberwise", 4, ["NoForeignStorage", "QueryNeverDangling"]),
+                     "sensitivity: member-wise copy of an internal pointer violates NoForeignStorage", workers=1, timeout=300, expect="violation:*")]
+        hs, r = tlcgen.gen_histories("Lifecycle.tla", self.life_cfg(work, "LifeGen", "retarget", 4, [], constraint="EmitHist"), seed, workers=4, timeout=900)
+        step = 1 if tier == "thorough" else 6
+        used = hs[seed % step::step]
+        self._hist = os.path.join(work, "life_hist.txt")
+        with open(self._hist, "w") as f:
+            for h in used:
+                f.write(json.dumps(h) + "\n")
+        return {"tlc_generated_histories": len(hs), "tlc_histories_replayed": len(used)}
+
+    def models_late(self):
+        return self._late
+
+    def recordings(self, tier, seed, bins, work):
+        env = {"ASAN_OPTIONS": "abort_on_error=1:detect_leaks=0"}
+        return [Recording("rec_lifecycle_asan", ["--shards", "6"], "seeded histories (ASan)", env=env, timeout=900),
+                Recording("rec_lifecycle_asan", ["--shards", "6", "--hist", self._hist], "TLC-generated histories (ASan)", env=env, timeout=1500)]
+
+
+class C16(Check):
+    id = "C16"
+    title = "concurrent read-only queries on one index are race-free and consistent"
+    trace_module = "ReadersTrace.tla"
+    trace_cfg = "ReadersTrace.cfg"
+    builds = [{"name": "rec_readers_tsan", "sources": ["rec_readers.cpp"], "compiler": "clang++", "openmp": False,
+               "extra_flags": ["-g", "-fsanitize=thread"]}]
+    assumptions = ["TLC explores every interleaving of the MODEL's reader steps; for the code the schedule space is sampled (2..16 threads, 400 queries each, started together)",
+                   "a data race in the sense of the C++ memory model is observed through ThreadSanitizer's happens-before analysis (clang 14): it flags a race on any schedule in which the two conflicting accesses are unordered; a report aborts the recorder and the recording is rejected",
+                   "the recorder is built without OpenMP (construction is single-threaded there), so libgomp cannot produce false reports"]
+    rule = ("model: 2-3 readers x 1-2 queries each over a two-level index, all interleavings of Begin/RouteStep/Finish, with the shared-memo variant as sensitivity check; "
+            "traces: PGMIndex (recursive and one-level), Compressed, Bucketing, EliasFano, Mapped, Multidimensional (contains + box ranges), Dynamic (find, count, lower_bound + "
+            "iteration, range) built once each and queried by 2, 5 and 16 threads (7 thread counts in thorough)")
+
+    def readers_cfg(self, work, name, readers, q, memo, invariants, props=()):
+        p = os.path.join(work, name + ".cfg")
+        with open(p, "w") as f:
+            f.write("CONSTANTS Reader = {%s}\n Keys = {1,3,4,6}\n QueriesPerReader = %d\n SharedMemo = %s\nSPECIFICATION Spec\n" % (
+                ",".join(str(i) for i in range(1, readers + 1)), q, "TRUE" if memo else "FALSE"))
+            if invariants:
+                f.write("INVARIANTS %s\n" % " ".join(invariants))
+            for pr in props:
+                f.write("PROPERTY %s\n" % pr)
+            f.write("CHECK_DEADLOCK FALSE\n")
+        return p
+
+    def pre_record(self, tier, seed, bins, work):
+        ms = [ModelRun("Readers.tla", self.readers_cfg(work, "R2x2", 2, 2, False, ["ResultsSequential"], ["NoSharedWrites"]), "2 readers x 2 queries, all interleavings", workers=3, timeout=900,
+                       constants={"Reader": 2, "QueriesPerReader": 2}),
+              ModelRun("Readers.tla", self.readers_cfg(work, "R3x1", 3, 1, False, ["ResultsSequential"], ["NoSharedWrites"]), "3 readers x 1 query, all interleavings", workers=3, timeout=900,
+                       constants={"Reader": 3, "QueriesPerReader": 1}),
+              ModelRun("Readers.tla", self.readers_cfg(work, "Rmemo", 2, 1, True, ["ResultsSequential"]), "sensitivity: a shared memo cell breaks sequential results", workers=1, timeout=300, expect="violation:*"),
+              ModelRun("Readers.tla", self.readers_cfg(work, "Rmemo2", 2, 1, True, [], ["NoSharedWrites"]), "sensitivity: a shared memo cell breaks the frame condition", workers=1, timeout=300, expect="violation:*"),
+              ModelRun("Readers.tla", self.readers_cfg(work, "Rwit", 2, 1, False, ["WitnessOverlap"]), "witness: two readers inside a query at the same time", workers=1, timeout=300, expect="violation:*")]
+        if tier == "thorough":
+            ms.append(ModelRun("Readers.tla", self.readers_cfg(work, "R3x2", 3, 2, False, ["ResultsSequential"], ["NoSharedWrites"]), "3 readers x 2 queries, all interleavings", workers=8, timeout=3000, heap="12g",
+                               constants={"Reader": 3, "QueriesPerReader": 2}))
+        self._late = ms
+        return {}
+
+    def models_late(self):
+        return self._late
+
+    def recordings(self, tier, seed, bins, work):
+        scr = os.path.join(work, "scratchfiles")
+        os.makedirs(scr, exist_ok=True)
+        return [Recording("rec_readers_tsan", ["--scratch", scr], "readers (TSan)", env={"TSAN_OPTIONS": "halt_on_error=1:abort_on_error=1"}, timeout=1200)]
+
+
+ASAN = ["-g", "-fsanitize=address", "-fno-omit-frame-pointer"]
+ASAN_ENV = {"ASAN_OPTIONS": "abort_on_error=1:detect_leaks=0"}
+
+
+class C17(Check):
+    id = "C17"
+    title = "no query or update on any class touches memory outside its own structures"
+    trace_module = "BoundsTrace.tla"
+    trace_cfg = "BoundsTrace.cfg"
+    assumptions = ["an access outside live allocations is observed through AddressSanitizer (clang 14): it aborts the recorder, the recording ends with a Crash line that the trace specification does not accept",
+                   "TLC decides in-boundness of the modelled unchecked-access sites on all inputs of the small universes (InBounds invariants) and of the logged indices of every recorded query",
+                   "accesses that stay inside a live allocation but outside the intended sub-object are not visible to ASan; inputs outside the stated domains (e.g. the reserved key as a query) are not claimed"]
+    rule = ("models: InBounds-type invariants of PGMIndex (sentinel-terminated scans, next(it)), Variants (bucket slice, Elias-Fano select arguments, window search), "
+            "Multidim (scan never reads data[end], jump landing), Mapped (gallop), DynamicPGM (branch-free lower bound) on every input of their small universes; "
+            "traces: the quick corpora of all recorders (n = 1,2,3, empty dynamic containers, queries at lowest(), first-1, last+1, max-1, iterators driven to end(), "
+            "boxes reaching the last stored code, every object-lifetime history) executed by ASan-instrumented binaries")
+
+    @property
+    def builds(self):
+        b = [{"name": "asan_static_%d" % p, "sources": ["rec_static.cpp"], "compiler": "clang++", "extra_flags": ASAN + ["-DPART=%d" % p]} for p in range(3)]
+        b += [{"name": "asan_variants_%d" % p, "sources": ["rec_variants.cpp"], "compiler": "clang++", "extra_flags": ASAN + ["-DPART=%d" % p]} for p in range(3)]
+        b += [{"name": "asan_dynamic", "sources": ["rec_dynamic.cpp"], "compiler": "clang++", "extra_flags": ASAN},
+              {"name": "asan_mapped", "sources": ["rec_mapped.cpp"], "compiler": "clang++", "extra_flags": ASAN},
+              {"name": "asan_md", "sources": ["rec_md.cpp"], "compiler": "clang++", "extra_flags": ASAN},
+              {"name": "asan_capi", "sources": ["rec_capi.cpp", cpgm()], "compiler": "clang++", "extra_flags": ASAN},
+              {"name": "rec_lifecycle_asan", "sources": ["rec_lifecycle.cpp"], "compiler": "clang++", "extra_flags": ASAN}]
+        return b
+
+    def pre_record(self, tier, seed, bins, work):
+        import props_static, props_variants, props_md, props_mapped
+        ms = []
+        for eps, er, route in ((1, 1, "linear"), (1, 1, "binary_window"), (1, 0, "binary_one_level"), (2, 2, "linear")):
+            name = "PGM_inb_e%d_r%d_%s" % (eps, er, route)
+            ms.append(ModelRun("PGMIndex.tla", props_static.pgm_cfg(work, name, 8, 6, eps, er, 8, route, 1, ["InBounds", "SentinelOK", "RoutedRight"]), name, workers=2, timeout=1500,
+                               constants={"U": 8, "N": 6, "Eps": eps, "EpsRec": er, "Sentinel": 8, "RouteMode": route}))
+        for mode, T in (("bucketing", 3), ("bucketing", 4), ("eliasfano", 2), ("routing", 2)):
+            name = "Var_inb_%s_%d" % (mode, T)
+            ms.append(ModelRun("Variants.tla", props_variants.var_cfg(work, name, mode, 3, T, 1, "binary" if mode == "routing" else "linear", ["InBounds", "TableOK"]), name, workers=2, timeout=900,
+                               constants={"Mode": mode, "KeyBits": 3, "T": T}))
+        ms.append(ModelRun("Multidim.tla", props_md.md_cfg(work, "Md_inb", 2, 3, 1, "lower_bound", ["InBounds"]), "Multidim InBounds", workers=3, timeout=1500,
+                           constants={"B": 2, "MaxPoints": 3, "MissThreshold": 1}))
+        ms.append(ModelRun("Mapped.tla", props_mapped.mapped_cfg(work, "Mapped_inb", "queries", 3, 10, 1, 0, True, ["GallopInBounds"]), "Mapped gallop InBounds", workers=2, timeout=900,
+                           constants={"U": 3, "N": 10, "Eps": 1}))
+        ms.append(ModelRun("MCDynamicPGM.tla", "MCDynamicPGM.k5.cfg", "DynamicPGM: branch-free lower bound inside every admissible range (RangeIrrelevant)", workers=3, timeout=900))
+        self._late = ms
+        return {}
+
+    def models_late(self):
+        return self._late
+
+    def recordings(self, tier, seed, bins, work):
+        scr = os.path.join(work, "scratchfiles")
+        os.makedirs(scr, exist_ok=True)
+        r = [Recording("asan_static_%d" % p, ["--shards", "3"], "static %d (ASan)" % p, env=ASAN_ENV, timeout=1500) for p in range(3)]
+        r += [Recording("asan_variants_%d" % p, ["--shards", "3"], "variants %d (ASan)" % p, env=ASAN_ENV, timeout=1500) for p in range(3)]
+        r += [Recording("asan_dynamic", [], "dynamic (ASan)", env=ASAN_ENV, timeout=1500),
+              Recording("asan_mapped", ["--scratch", scr, "--shards", "3"], "mapped (ASan)", env=ASAN_ENV, timeout=1500),
+              Recording("asan_md", ["--shards", "3"], "multidimensional (ASan)", env=ASAN_ENV, timeout=1500),
+              Recording("asan_capi", ["--part", "static"], "C static (ASan)", env=ASAN_ENV, timeout=1500),
+              Recording("asan_capi", ["--part", "dynamic"], "C dynamic (ASan)", env=ASAN_ENV, timeout=1500),
+              Recording("rec_lifecycle_asan", ["--shards", "2"], "lifecycle (ASan)", env=ASAN_ENV, timeout=1500)]
+        return r
+
+
+CHECKS = [C16, C17, C18, C19, C20]
